@@ -72,6 +72,19 @@ def run(ctx):
     accepted, scs, lines = connlib.run_scenarios(ctx, scenarios, "c11")
     groups = connlib.report(ctx, accepted, scs, lines, None)
     connlib.violations_from_groups(ctx, groups, lines, lambda sc: dict(scenarios[sc // 10000 - 1], _cut=sc % 10000 + 1))
+    # on real sockets: complete requests followed by the end of the stream inside a request, or by a malformed frame, in one
+    # segment and read late - every complete request's reply has to arrive (TraceServer churn rule, as in C19)
+    if not ctx.replay:
+        import os
+        ctrace = os.path.join(ctx.work, "c11_sockets.ndjson")
+        ctx.harness(["churn", "--out", ctrace, "--cycles", 60 if thorough else 25, "--inflight", 6, "--seed", ctx.seed,
+                     "--modes", "malformed-pipeline,fin-mid,malformed,fin-boundary"], timeout=900)
+        cacc, cs2, cl2 = ctx.validate(ctrace, "TraceServer", stateful=True, shards=1, constants="CONSTANT Diagnose = FALSE\n")
+        if cs2[0] not in cacc:
+            idx, ev = connlib.diagnose(ctx, cl2[cs2[0]], "TraceServer")
+            ctx.violation("real sockets: a connection that ended behind complete requests lost replies or was not released: %s" % json.dumps(
+                {k: v for k, v in ev.items() if k not in ("sc", "end")})[:400], {"cmd": "vharness churn --modes malformed-pipeline,fin-mid,malformed,fin-boundary --seed %d" % ctx.seed, "event": ev})
+        ctx.stage("real-sockets")
     inside = 0
     samples = []
     for sc in scs:
